@@ -86,6 +86,14 @@ def gen(ctx):
     return sc.gen_dag(ctx.rng, pull_comps=False, kinds=["dfix", "dpull", "lin", "step", "scale", "next"])
 
 
+def oracle_ws_dpull(case, impl):
+    """C01 through the package's merger: the run completes — no pull inside an update fails with a time-range / no-data error"""
+    if impl["error"] in ("FinamTimeError", "FinamNoDataError"):
+        return ("a pull at the announced time during an update never fails with a time-range or no-data error (WeightedSum behind a "
+                "DelayToPull, read twice per step)", {"error": impl["error"], "msg": impl.get("msg")})
+    return None
+
+
 def corpus():
     return [
         # F2: delay adapter upstream of a push-based adapter must not be counted
@@ -169,9 +177,27 @@ def run(ctx, res):
         o = announce.oracle(c, impl)
         if o:
             res.fail(c, o[0], o[1])
+    run_ws_dpull(ctx, res, ctx.n(30, 400))
+
+
+def run_ws_dpull(ctx, res, n):
+    """the package's merger behind a DelayToPull, read twice per step (engines/c20.py: gen_ws_dpull)"""
+    from . import c20
+    for _ in range(n):
+        c = c20.gen_ws_dpull(ctx.rng)
+        c["part"] = "ws_dpull"
+        res.case(c, True)
+        res.count("part", "weighted-sum-behind-dpull")
+        o = oracle_ws_dpull(c, c20.run_ws(c))
+        if o:
+            res.fail(c, o[0], o[1])
+            return True
+    return False
 
 
 def search(ctx, res, divergences, broken):
+    if run_ws_dpull(ctx, res, 80):
+        return
     for _ in range(300):
         c = announce.gen(ctx.rng)
         res.case(c, True)
@@ -190,7 +216,7 @@ def search(ctx, res, divergences, broken):
 
 
 def shrink(ctx, f):
-    if f["case"].get("part") == "announce":
+    if f["case"].get("part") in ("announce", "ws_dpull"):
         return f
     sig = f.get("signature")
 
@@ -211,6 +237,10 @@ def replay(ctx, rp):
         impl = announce.run(case)
         o = announce.oracle(case, impl)
         return {"fails": bool(o), "oracle": o, "log": impl["log"]}
+    if case.get("part") == "ws_dpull":
+        from . import c20
+        o = oracle_ws_dpull(case, c20.run_ws(case))
+        return {"fails": bool(o), "oracle": o}
     impl = run_impl(case)
     o = oracle(case, impl)
     req, order = model_request(case)
